@@ -64,7 +64,7 @@ theorem mem_getrange {p : Plane} {b : Rect} {k : Key} (hd : 0 < p.gridsize) :
   obtain ⟨x0, y0, x1, y1⟩ := b
   obtain ⟨gx, gy⟩ := k
   unfold getrange
-  simp only [List.mem_flatMap, List.mem_map, Prod.mk.injEq, mem_drange hd, clampLo, clampHi]
+  simp only [plane_clamp, List.mem_flatMap, List.mem_map, Prod.mk.injEq, mem_drange hd, clampLo, clampHi]
   constructor
   · rintro ⟨gy', hy, gx', hx, rfl, rfl⟩; exact ⟨hx, hy⟩
   · rintro ⟨hx, hy⟩; exact ⟨gy, hy, gx, hx, rfl, rfl⟩
@@ -80,7 +80,7 @@ theorem overlap_share_cell {p : Plane} (hd : 0 < p.gridsize) (hx : p.x0 ≤ p.x1
   unfold WfRect bboxOf at ho
   unfold WfRect at hq
   simp only at ho hq
-  unfold overlaps at hov
+  unfold overlaps plane_find_skip at hov
   simp only [Bool.not_eq_true', Bool.or_eq_false_iff, decide_eq_false_iff_not, Rat.not_le] at hov
   obtain ⟨⟨⟨h1, h2⟩, h3⟩, h4⟩ := hov
   -- a point shared by both boxes
@@ -292,14 +292,29 @@ theorem length_flatMap_const {α β : Type} (l : List α) (f : α → List β) (
 /-- `_cells` counts the cells without enumerating them. -/
 theorem length_getrange (p : Plane) (b : Rect) : (getrange p b).length = cellCount p b := by
   obtain ⟨x0, y0, x1, y1⟩ := b
-  simp only [getrange, cellCount, drange_bounds]
+  simp only [getrange, plane_clamp, cellCount, drange_bounds]
   rw [length_flatMap_const _ _ ((rStop (max (min p.x1 x1) p.x0) p.gridsize - rStart (min (max p.x0 x0) p.x1) p.gridsize).toNat)
     (by intro gy _; simp [length_pyRange])]
   rw [length_pyRange, Nat.mul_comm]
 
+/-- The regenerated cell-count test of `Plane._cells` (`max(0, stop - start)` products against `MAXCELLS`)
+is the comparison of the closed-form `cellCount` with `PLANE_MAXCELLS`. -/
+theorem cells_over_iff (a b c d : Int) :
+    plane_cells_over a b c d = true ↔ PLANE_MAXCELLS < (b - a).toNat * (d - c).toNat := by
+  simp only [plane_cells_over, PLANE_MAXCELLS_I, PLANE_MAXCELLS, decide_eq_true_eq, gt_iff_lt]
+  rw [show max (0 : Int) (b - a) = ((b - a).toNat : Int) by omega,
+      show max (0 : Int) (d - c) = ((d - c).toNat : Int) by omega, ← Int.natCast_mul]
+  omega
+
+theorem cells?_def (p : Plane) (b : Rect) :
+    cells? p b = if PLANE_MAXCELLS < cellCount p b then none else some (getrange p b) := by
+  obtain ⟨x0, y0, x1, y1⟩ := b
+  simp only [cells?, plane_clamp, cellCount, cells_over_iff]
+  split <;> rename_i h <;> simp only [h, if_true, if_false]
+
 theorem cells?_some {p : Plane} {b : Rect} {ks : List Key} (h : cells? p b = some ks) :
     ks = getrange p b ∧ ks.length ≤ PLANE_MAXCELLS := by
-  unfold cells? at h
+  rw [cells?_def] at h
   split at h
   · simp at h
   · rename_i hle
@@ -365,7 +380,7 @@ theorem cells?_congr {p p' : Plane} (h : p'.gridsize = p.gridsize ∧ p'.x0 = p.
     (b : Rect) : cells? p' b = cells? p b := by
   have hg := getrange_congr h b
   obtain ⟨h1, h2, h3, h4, h5⟩ := h
-  unfold cells? cellCount; rw [hg, h1, h2, h3, h4, h5]
+  rw [cells?_def, cells?_def]; unfold cellCount; rw [hg, h1, h2, h3, h4, h5]
 
 
 theorem remove_ok (p : Plane) (o : PObj) (h : o.id ∈ p.objs) : (remove p o).2 = true := by
